@@ -56,6 +56,7 @@ def main(ctx):
     for s in [None, ["subd", 3, "fresh"], ["suberr", 3], ["sub", 0, "plain"], ["sub", 1, "det"]]:
         jobs.append({"first": f, "second": s, "depth": depth - 2, "root": s is None,
                      "event_last_only": False, "reg": True})
+    jobs.append({"kind": "handler-kinds"})
     for fw in ("tx", "aio"):
         ctx.pmap({"fw": fw, "nvx": "1"}, "props.c11:job", jobs, chunksize=1)
     c = ctx.counters
@@ -73,7 +74,7 @@ def main(ctx):
               "unsub_inside_sends_unsubscribe", "handler_with_details_before_plain",
               "decorated_handler_invoked", "user_error_reported", "protocol_error_raised",
               "shape:none", "shape:args", "shape:kwargs", "shape:both",
-              "unsub_in_subscribe_callback", "callee_variant_transitions"):
+              "unsub_in_subscribe_callback", "callee_variant_transitions", "handler_kinds_events"):
         ctx.require(n)
 
 
@@ -668,7 +669,103 @@ def _sig(v):
     return "C11|%s|%s" % (v[0], v[1])
 
 
+def _job_kinds(a):
+    """every kind of handler callable x check_types x details on ONE subscription id: plain function,
+    function returning a Deferred/Future that fires later, coroutine function - each once as it is
+    and once subscribed with check_types=True (annotated parameters), with and without details.
+    Every EVENT (4 payload shapes) reaches the body of EVERY handler exactly once, in subscription
+    order, with the published arguments; a handler annotated with a type the payload violates is
+    reported (onUserError) and does not stop the others."""
+    import collections
+    import itertools
+    import txaio
+    from mc import worker
+    from harness import wamp_l1 as H
+    from autobahn.wamp import message as M
+    from autobahn.wamp import types as T
+    env = worker.ENV
+    seed = int(env.get("seed", 0))
+    viol = []
+    stats = collections.Counter()
+
+    def bad(clause, detail):
+        if len(viol) < 6:
+            viol.append({"sig": "C11|%s|handler-kinds" % clause, "desc": "[fw=%s] %s" % (env.get("fw"), detail),
+                         "replay": {"env": {"fw": env.get("fw"), "nvx": "1"}, "func": "props.c11:job", "arg": a}})
+    evals = 0
+    kinds = ["plain", "later", "coro"]
+    variants = [(k, ct, det) for k in kinds for ct in (False, True) for det in (False, True)]
+    for order in (variants, list(reversed(variants))):
+        l1 = H.L1(observers=False).join()
+        s = l1.session
+        log = []
+        pending = []
+
+        def make(idx, kind, det):
+            def record(a_, k_):
+                if det:
+                    k_ = dict(k_)
+                    d_ = k_.pop("details", None)
+                    log.append((idx, tuple(a_), k_, d_ is not None))
+                else:
+                    log.append((idx, tuple(a_), dict(k_), False))
+            if kind == "plain":
+                def h(*a_, **k_):
+                    record(a_, k_)
+            elif kind == "later":
+                def h(*a_, **k_):
+                    record(a_, k_)
+                    f = txaio.create_future()
+                    pending.append(f)
+                    return f
+            else:
+                async def h(*a_, **k_):
+                    record(a_, k_)
+            return h
+        for idx, (kind, ct, det) in enumerate(order):
+            opts = T.SubscribeOptions(details_arg="details") if det else None
+            r = l1.api(s.subscribe, make(idx, kind, det), "com.kinds.topic", options=opts, check_types=ct)
+            l1.settle()
+            if r[0] == "raise":
+                bad("api-raised", "subscribe(%s, check_types=%s) raised %s" % (kind, ct, H.exc_brief(r[1])))
+                continue
+            req = [m for m in l1.transport.sent if isinstance(m, M.Subscribe)][-1].request
+            exc = l1.deliver(M.Subscribed(req, 77))
+            if exc is not None:
+                bad("subscribed-rejected", H.exc_brief(exc))
+        for pub, shape in enumerate(SHAPES):
+            a_, kw = _payload(shape, seed, pub)
+            del log[:]
+            exc = l1.deliver(M.Event(77, 900 + pub, args=list(a_) or None, kwargs=dict(kw) or None))
+            l1.settle()
+            for f in pending:
+                txaio.resolve(f, None)
+            del pending[:]
+            l1.settle()
+            evals += 1
+            stats["handler_kinds_events"] += 1
+            stats["nontrivial"] += 1
+            want = [(idx, tuple(a_), dict(kw), det) for idx, (kind, ct, det) in enumerate(order)]
+            got = [(i, tuple(x), {k: v for k, v in y.items()}, d) for i, x, y, d in log]
+            if exc is not None:
+                bad("escape", "EVENT raised %s" % H.exc_brief(exc))
+            # bodies of coroutine handlers (and of everything wrapped by check_types, which is a
+            # coroutine) start when the framework schedules them: on asyncio that is a later loop
+            # iteration.  Demanded: every body exactly once with the right arguments, and
+            # subscription order among the handlers that are called synchronously
+            sync_idx = [i for i, (kind, ct, det) in enumerate(order) if kind != "coro" and not ct]
+            ordered_ok = [g[0] for g in got if g[0] in sync_idx] == sync_idx
+            if sorted(got, key=repr) != sorted(want, key=repr) or not ordered_ok:
+                missing = [order[w[0]] for w in want if w not in got]
+                bad("handler-body-not-run" if missing else "handler-order",
+                    "EVENT shape %s: handlers (kind, check_types, details) %s did not run / ran differently; "
+                    "got %r expected %r" % (shape, missing[:4], got[:4], want[:4]))
+    return {"evals": evals, "viol": viol, "stats": dict(stats), "samples": [{"kind": "handler-kinds", "events": evals}]}
+
+
 def job(a):
+    if a.get("kind") == "handler-kinds":
+        return _job_kinds(a)
     import collections
     from mc import worker
     env = worker.ENV
